@@ -182,11 +182,16 @@ class Render:
             else:
                 for cc in b[i : i + n]:
                     h = f"{cc:02x}"
-                    if r.random() < 0.5:
+                    y = r.random()
+                    if y < 0.35:
                         h = h.upper()
                         self.used.add("esc-upper")
-                    else:
+                    elif y < 0.7:
                         self.used.add("esc-lower")
+                    else:  # each hex digit in its own case (\\aF, \\Fa): RFC 4515 HEX is case-insensitive per digit
+                        h = (h[0].upper() if r.random() < 0.5 else h[0]) + (h[1].upper() if r.random() < 0.5 else h[1])
+                        if h[0].isalpha() and h[1].isalpha() and h[0].isupper() != h[1].isupper():
+                            self.used.add("esc-mixed-case-pair")
                     out.append("\\" + h)
             i += n
         return "".join(out)
